@@ -48,17 +48,17 @@ def gotoOf (T : Tables) (state nt : Nat) : Option Nat :=
 
 def defaultedOf (T : Tables) (state : Nat) : Option Nat := lookupFlat T.defaulted state
 
-structure Sem (τ ν ε : Type) where
+structure Sem (τ ν σ ε : Type) where
   ty : τ → Nat
   leaf : τ → ν
-  /-- `reduce p args pos`: semantic action of production `p`; `pos` is the lexer's current
-      (lexpos, lineno), which ply gives to an empty production when tracking -/
-  reduce : Nat → List ν → Nat × Nat → Except ε ν
+  /-- `reduce p args src`: semantic action of production `p`; it may read the token source's (lexer's) state:
+      ply gives the lexer's current (lexpos, lineno) to an empty production when tracking, and `setpos` calls
+      `lexer.lookup_colno` -/
+  reduce : Nat → List ν → σ → Except ε ν
 
 structure Source (τ σ ε : Type) where
-  next : σ → Option τ × σ
+  next : σ → Except ε (Option τ × σ)     -- `lexer.token()`; may raise the lexer's errors
   onError : σ → Option τ → Except ε (Option τ × σ)   -- `none` = returned without errok
-  curPos : σ → Nat × Nat
 
 inductive Outcome (ν ε : Type) where
   | accepted (v : ν)
@@ -82,36 +82,43 @@ def popN : Nat → List α → Option (List α × List α)
   | n + 1, x :: l => (popN n l).map (fun (a, b) => (x :: a, b))
   | _ + 1, [] => none
 
+/-- terminal index of the held look-ahead (`$end` when the source is exhausted) -/
+def lookTermOf (T : Tables) (S : Sem τ ν σ ε) (c : Config τ ν σ) : Nat :=
+  match c.look with
+  | some (some t) => S.ty t
+  | _ => T.endTerm
+
 /-- choose the action: defaulted states reduce without reading a token, otherwise the
     look-ahead is fetched from the source if none is held -/
-def fetch (T : Tables) (S : Sem τ ν ε) (R : Source τ σ ε) (c : Config τ ν σ) (state : Nat) :
-    Option Act × Config τ ν σ :=
+def fetch (T : Tables) (S : Sem τ ν σ ε) (R : Source τ σ ε) (c : Config τ ν σ) (state : Nat) :
+    Except ε (Option Act × Config τ ν σ) :=
   match defaultedOf T state with
-  | some p => (some (.reduce p), c)
+  | some p => .ok (some (.reduce p), c)
   | none =>
-    let c1 : Config τ ν σ := match c.look with
-      | some _ => c
-      | none => { c with look := some (R.next c.src).1, src := (R.next c.src).2 }
-    let term := match c1.look with
-      | some (some t) => S.ty t
-      | _ => T.endTerm
-    (actionOf T state term, c1)
+    match c.look with
+    | some _ => .ok (actionOf T state (lookTermOf T S c), c)
+    | none =>
+      match R.next c.src with
+      | .error e => .error e
+      | .ok (t, s') =>
+        let c1 : Config τ ν σ := { c with look := some t, src := s' }
+        .ok (actionOf T state (lookTermOf T S c1), c1)
 
-def doShift (S : Sem τ ν ε) (c : Config τ ν σ) (s : Nat) : Sum (Config τ ν σ) (Outcome ν ε) :=
+def doShift (S : Sem τ ν σ ε) (c : Config τ ν σ) (s : Nat) : Sum (Config τ ν σ) (Outcome ν ε) :=
   match c.look with
   | some (some t) =>
     .inl { c with states := s :: c.states, vals := S.leaf t :: c.vals, look := none,
                   shifted := t :: c.shifted }
   | _ => .inr (.internal "shift of $end")
 
-def doReduce (T : Tables) (S : Sem τ ν ε) (R : Source τ σ ε) (c : Config τ ν σ) (p : Nat) :
+def doReduce (T : Tables) (S : Sem τ ν σ ε) (R : Source τ σ ε) (c : Config τ ν σ) (p : Nat) :
     Sum (Config τ ν σ) (Outcome ν ε) :=
   match T.prods[p]? with
   | none => .inr (.internal "bad production")
   | some (lhs, rhs) =>
     match popN rhs.length c.vals, popN rhs.length c.states with
     | some (args, restVals), some (_, restStates) =>
-      match S.reduce p args.reverse (R.curPos c.src) with
+      match S.reduce p args.reverse c.src with
       | .error e => .inr (.error e)
       | .ok v =>
         match restStates with
@@ -136,21 +143,22 @@ def doError (R : Source τ σ ε) (c : Config τ ν σ) : Sum (Config τ ν σ) 
   | .ok (some t, s') => .inl { c with look := some (some t), src := s' }
 
 /-- one iteration of ply's `while True` loop -/
-def step (T : Tables) (S : Sem τ ν ε) (R : Source τ σ ε) (c : Config τ ν σ) :
+def step (T : Tables) (S : Sem τ ν σ ε) (R : Source τ σ ε) (c : Config τ ν σ) :
     Sum (Config τ ν σ) (Outcome ν ε) :=
   match c.states with
   | [] => .inr (.internal "empty state stack")
   | state :: _ =>
     match fetch T S R c state with
-    | (some (.shift s), c1) => doShift S c1 s
-    | (some (.reduce p), c1) => doReduce T S R c1 p
-    | (some .accept, c1) =>
+    | .error e => .inr (.error e)
+    | .ok (some (.shift s), c1) => doShift S c1 s
+    | .ok (some (.reduce p), c1) => doReduce T S R c1 p
+    | .ok (some .accept, c1) =>
       match c1.vals with
       | v :: _ => .inr (.accepted v)
       | [] => .inr (.internal "accept on empty stack")
-    | (none, c1) => doError R c1
+    | .ok (none, c1) => doError R c1
 
-def run (T : Tables) (S : Sem τ ν ε) (R : Source τ σ ε) : Nat → Config τ ν σ → Outcome ν ε × Config τ ν σ
+def run (T : Tables) (S : Sem τ ν σ ε) (R : Source τ σ ε) : Nat → Config τ ν σ → Outcome ν ε × Config τ ν σ
   | 0, c => (.outOfFuel, c)
   | fuel + 1, c =>
     match step T S R c with
@@ -166,13 +174,12 @@ inductive Tree (τ : Type) where
   | leaf (t : τ)
   | node (prod : Nat) (children : List (Tree τ))
 
-def treeSem (ty : τ → Nat) : Sem τ (Tree τ) ε :=
+def treeSem (ty : τ → Nat) : Sem τ (Tree τ) σ ε :=
   { ty := ty, leaf := .leaf, reduce := fun p args _ => .ok (.node p args) }
 
 /-- a plain list of tokens as token source; any syntax error is final -/
 def listSource (ε : Type) (err : Option τ → ε) : Source τ (List τ) ε :=
-  { next := fun l => match l with | [] => (none, []) | t :: r => (some t, r),
-    onError := fun _ t => .error (err t),
-    curPos := fun _ => (0, 0) }
+  { next := fun l => match l with | [] => .ok (none, []) | t :: r => .ok (some t, r),
+    onError := fun _ t => .error (err t) }
 
 end CalmVerif.Model.LR
